@@ -696,9 +696,9 @@ Definition conversions : list conv_row := [
          layer_tables]
         [("layout21raw/src/lef.rs", "import_pin")];
   mkrow "technology protobuf -> layer table (Layers::from_proto)"
-        "no Coq model"
+        "Raw/RawLayersProto.v from_proto_with v ord: order argument ord for the local map; the tree is v = SortByKey (read from the source on every run)"
         SortedIteration
-        ["local `layers_by_number: HashMap`: entry().or_insert, values() collected and sorted by layer number"]
+        ["local `layers_by_number: HashMap<u64, Layer>`: entry().or_insert, iter() collected and sorted by the map's own key"]
         [("layout21raw/src/proto.rs", "from_proto")];
   mkrow "gridded -> raw (RawExporter)"
         "Tetris/Compile.v compile fx st cells: no order argument"
@@ -746,8 +746,8 @@ Definition table_ok (sites : list site) : bool := forallb (row_ok sites) convers
 
 (** * 11. The sort has to be by the map's own key.
     [sorted_iteration_order_irrelevant] needs the SORT keys to be distinct.  `sorted_by_layer` sorts by the map
-    key itself.  `Layers::from_proto` (no model; layout21raw/src/proto.rs) keys its map by the technology's
-    64-bit layer index but sorts the values by `layernum`, the index truncated to `i16`: two indices that agree
+    key itself.  `Layers::from_proto` after its first repair (/repo commit ff55d4d; model Raw/RawLayersProto.v, variant SortByNum) keyed its map by the technology's
+    64-bit layer index but sorted the values by `layernum`, the index truncated to `i16`: two indices that agree
     modulo 2^16 are distinct map keys with one sort key, the (stable) sort leaves them in hash order. *)
 Definition sort_by_truncated_key (l : list (Z * Z)) : list (Z * Z) :=
   isort (map (fun e => (wrap16 (fst e), snd e)) l).
